@@ -250,6 +250,14 @@ def guard_requires(e, pol, pred):
         every = isinstance(e.op, ast.Or) == bool(pol)
         rs = [guard_requires(v, pol, pred) for v in e.values]
         return all(rs) if every else any(rs)
+    if isinstance(e, ast.Compare) and len(e.ops) > 1:
+        # a < b <= c is (a < b) and (b <= c)
+        terms = [e.left] + list(e.comparators)
+        parts = [ast.copy_location(ast.Compare(terms[i], [e.ops[i]], [terms[i + 1]]), e) for i in range(len(e.ops))]
+        if bool(pred(e, pol)):
+            return True
+        rs = [bool(pred(q, pol)) for q in parts]
+        return any(rs) if pol else all(rs)
     return bool(pred(e, pol))
 
 
